@@ -65,7 +65,7 @@ pub fn reference(
 
 // ---------------------------------------------------------------------------
 
-pub const FAULT_NAMES: [&str; 10] = [
+pub const FAULT_NAMES: [&str; 11] = [
     "caught_panic_in_op",
     "thread_crash",
     "exit_then_respawn",
@@ -76,6 +76,7 @@ pub const FAULT_NAMES: [&str; 10] = [
     "tls_destructor_probe",
     "stall_starve_one",
     "die_inside_display",
+    "reentrant_access_from_sink",
 ];
 
 #[derive(Clone, Default)]
@@ -308,6 +309,10 @@ pub fn judge(
                 }
                 if e.sink.err_fired {
                     stats.faults[6] += 1;
+                }
+                if e.sink.n_reent > 0 {
+                    stats.faults[10] += 1;
+                    stats.l1_checked += e.sink.n_reent as u64;
                 }
                 if e.foreign_set_in_flight {
                     stats.faults[5] += 1;
